@@ -404,6 +404,18 @@ def fixed_family():
                    {'entry': 'solve', 'infeasible': 'front', 'opts': {'max_iter': 5}},
                    {'entry': 'solve_t', 'infeasible': 'front', 'opts': {'max_iter': 5}},
                    {'entry': 'evaluate', 'infeasible': 'back', 'negative': True}]))
+    # the deepest lag and the furthest lead are on an error term only (MA-style disturbance)
+    progs.append(([['assign', V('Y'), ['bin', '+', ['bin', '+', ['bin', '*', V('rho', None, 'p'), V('Y', -1)], V('X')],
+                                       ['bin', '+', ['bin', '*', V('theta', None, 'p'), V('u', -2, 'e')],
+                                        ['bin', '*', V('phi', None, 'p'), V('u', 1, 'e')]]]]],
+                  [{'entry': 'evaluate', 'tpos': 0}, {'entry': 'solve', 'opts': {'max_iter': 5}},
+                   {'entry': 'solve', 'infeasible': 'front', 'opts': {'max_iter': 5}},
+                   {'entry': 'solve', 'infeasible': 'back', 'opts': {'max_iter': 5}},
+                   {'entry': 'solve_t', 'infeasible': 'front', 'opts': {'max_iter': 5}},
+                   {'entry': 'solve_t', 'infeasible': 'back', 'negative': True, 'opts': {'max_iter': 5}}]))
+    progs.append(([['assign', V('Y'), ['bin', '+', V('X', -1), ['bin', '*', V('a', -3, 'p'), V('Z', 2)]]]],
+                  [{'entry': 'solve', 'infeasible': 'front', 'opts': {'max_iter': 5}},
+                   {'entry': 'solve', 'infeasible': 'back', 'opts': {'max_iter': 5}}]))
     # long equation that needs continuation lines; many variables
     many = [V('X%d' % i, -(i % 3)) for i in range(40)]
     long_rhs = many[0]
